@@ -14,6 +14,7 @@ import (
 	"0chain.net/chaincore/transaction"
 	"0chain.net/core/common"
 	"0chain.net/core/config"
+	"0chain.net/core/encryption"
 	"github.com/0chain/common/core/currency"
 	"github.com/0chain/common/core/statecache"
 	"github.com/0chain/common/core/util"
@@ -302,6 +303,30 @@ func (r *Runner) Step(st sim.Step) bool {
 		cp.OutputHash = ""
 		w.Tr.Fault("replay_applied_txn")
 		r.Submit(cp)
+	case "fresh":
+		// a brand-new wallet (no leaf in state yet): kind 0 — its first transaction is a faucet
+		// pour that pays the wallet itself; kind 1 — it is first funded by a send and then spends;
+		// kind 2 — it only receives
+		r.EnsureBlock()
+		id := encryption.Hash(fmt.Sprintf("fresh-wallet-%d-%d", w.Seed, st.A%6))
+		switch st.Int(0, 0) % 3 {
+		case 0:
+			t := w.MakeTxn(TxnSpec{From: id, To: AddrFaucet, Type: transaction.TxnTypeSmartContract, Name: "pour", Raw: "{}",
+				Value: r.ResolveValue(st.Int(1, VSmall), id), Fee: 0, Nonce: r.ResolveNonce(NExpected, id)})
+			r.Submit(t)
+			w.Tr.Probe("fresh_wallet_first_txn_pays_it")
+		case 1:
+			from, _ := w.Account(int(st.Int(2, 0)))
+			t := w.MakeTxn(TxnSpec{From: from, To: id, Type: transaction.TxnTypeSend, Value: 1e9, Fee: r.ResolveFee(0, from), Nonce: r.ResolveNonce(NExpected, from)})
+			r.Submit(t)
+			to, _ := w.Account(int(st.Int(2, 0)) + 1)
+			t2 := w.MakeTxn(TxnSpec{From: id, To: to, Type: transaction.TxnTypeSend, Value: r.ResolveValue(st.Int(1, VSmall), id), Fee: 0, Nonce: r.ResolveNonce(NExpected, id)})
+			r.Submit(t2)
+		default:
+			from, _ := w.Account(int(st.Int(2, 0)))
+			t := w.MakeTxn(TxnSpec{From: from, To: id, Type: transaction.TxnTypeSend, Value: r.ResolveValue(st.Int(1, VSmall), from), Fee: r.ResolveFee(0, from), Nonce: r.ResolveNonce(NExpected, from)})
+			r.Submit(t)
+		}
 	case "poke":
 		// boundary state outside what a conserving history can reach (C05 only):
 		// an account of the block under assembly is given a balance within
